@@ -15,6 +15,9 @@ Extract Constant Z.testbit => "(fun x i -> if Big_int_Z.sign_big_int i < 0 then 
 Extract Constant wrap => "(fun w x -> let n = Big_int_Z.int_of_big_int w in if n <= 0 then (if n = 0 then Big_int_Z.zero_big_int else failwith ""wrap: negative width"") else Big_int_Z.extract_big_int x 0 n)".
 Extract Constant wshr => "(fun a k -> if Big_int_Z.sign_big_int k < 0 then Big_int_Z.zero_big_int else Big_int_Z.shift_right_big_int a (Big_int_Z.int_of_big_int k))".
 Extract Constant wshl => "(fun w a k -> if Big_int_Z.sign_big_int k < 0 then Big_int_Z.zero_big_int else wrap w (Big_int_Z.shift_left_big_int a (Big_int_Z.int_of_big_int k)))".
+(* Coq's List.rev is the quadratic `rev l' ++ [x]`; poly_normalize / poly_degree (model/PolyCore.v) reverse the coefficient list
+   twice on every call, which makes degree 2^15 cost seconds.  OCaml's List.rev is the same function of the list. *)
+Extract Constant rev => "List.rev".
 Extraction "../ocaml/gen_c08/model.ml"
   P PRIMITIVE_ROOTS bfe_new bfe_value bfe_zero bfe_one bfe_mul bfe_add inverse mod_pow primitive_root_of_unity
   xscale xlift xunlift
